@@ -76,13 +76,15 @@ def chain_info(stages, hold, polite, eb=False):
             if a > 0:
                 held = True
             cap = cap + a
-        elif k in ("ff", "fz"):
+        elif k in ("ff", "fz", "fe", "fl", "fm"):
+            # strm::fifo; fe / fl / fm carry the latency request: a = n * 100 + minDepth (FifoLatency(n) / AtLeast(n) / AtMost(n))
             has_fifo = True
+            depth = a if k in ("ff", "fz") else a % 100
             d = 1
-            while d < a:
+            while d < depth:
                 d <<= 1
-            cap = cap + d + 4
-            if k == "ff":
+            cap = cap + d + 4 + (0 if k in ("ff", "fz") else a // 100)
+            if not (k == "fz" or (k == "fe" and a // 100 == 0)):
                 held = True
         elif k == "st":
             held = held and bool(polite)
@@ -229,7 +231,7 @@ def gen_chain(rng, depth, allow_fifo=False, force=None, kinds=None, ebsafe=False
         nst = 0
         ok = True
         for i in range(depth):
-            kk = list(kinds or STAGE_KINDS) + (["ff", "fz"] if allow_fifo else [])
+            kk = list(kinds or STAGE_KINDS) + (["ff", "fz", "fe", "fl", "fm"] if allow_fifo else [])
             k = force[i] if force and i < len(force) and force[i] else rng.choice(kk)
             if k == "dl":
                 toks.append(f"dl{rng.choice([0, 1, 2, 3, 4])}")
@@ -270,6 +272,10 @@ def gen_chain(rng, depth, allow_fifo=False, force=None, kinds=None, ebsafe=False
                 digits = t; toks.append(f"pm{t}")
             elif k in ("ff", "fz"):
                 toks.append(f"{k}{rng.choice([2, 4, 8])}")
+            elif k in ("fe", "fl", "fm"):
+                # every way of requesting a latency (FifoLatency::AtMost(0) is not generated: elaboration does not terminate)
+                nreq = rng.choice([0, 1, 1, 2, 3]) if k != "fm" else rng.choice([1, 1, 1, 2, 3])
+                toks.append(f"{k}{nreq * 100 + rng.randrange(1, 17)}")
             else:
                 toks.append(k)
         if ok and ebsafe and not emptybits_widths_ok(parse_chain(",".join(toks), digits0), w, digits0):
@@ -582,6 +588,31 @@ def gen_sig_cases(seed, tiername, tag, count, n):
     return cases
 
 
+def gen_fifolat_cases(seed, tiername, tag, count, n):
+    """strm::fifo under every way of REQUESTING a latency the API offers -- FifoLatency(n) exact n = 0..3, DontCare, AtLeast(n),
+    AtMost(n) (AtMost(0) excluded: elaboration does not terminate) -- x minDepth 1..16 x light-load schedules (push while the
+    fifo is empty / draining, consumer stalls), alone and between register stages.  The stage specification does not depend on
+    the request; only the latency bound does (checked for single-stage chains)."""
+    rng = random.Random(f"C16/{seed}/{tiername}/{tag}")
+    reqs = [("ff", None), ("fe", 0), ("fe", 1), ("fe", 2), ("fe", 3), ("fl", 0), ("fl", 1), ("fl", 2), ("fl", 3), ("fm", 1), ("fm", 2), ("fm", 3)]
+    cases = []; i = 0
+    def tok(k, nreq, d):
+        return f"ff{d}" if k == "ff" else f"{k}{nreq * 100 + d}"
+    vks = ["rand_sparse", "rand_sparse", "bursty", "rand"]
+    rks = ["always", "rand", "bursty", "longstall", "alt", "adv_fall_on_rise", "rand_sparse"]
+    for (k, nreq) in reqs:
+        for d in (1, 2, 3, 4, 7, 16):
+            cases.append(gen_case(rng, f"{tag}{i}", n, depth=1, hold=True, polite=True, tokens=[tok(k, nreq, d)], digits0=rng.choice([1, 2]),
+                                  vkind=rng.choice(vks), rkind=rng.choice(rks))); i += 1
+    while len(cases) < count:
+        k, nreq = rng.choice(reqs); d = rng.randrange(1, 17)
+        pre = rng.choice([[], [], ["rd"], ["rr"], ["dc"], ["st0"]]); post = rng.choice([[], [], ["rd"], ["rr"], ["dl2"]])
+        toks = pre + [tok(k, nreq, d)] + post
+        cases.append(gen_case(rng, f"{tag}{i}", n, depth=len(toks), hold=True if rng.random() < 0.85 else False, polite=True, tokens=toks,
+                              digits0=rng.choice([1, 1, 2, 3]), vkind=rng.choice(vks), rkind=rng.choice(rks), be=rng.random() < 0.15)); i += 1
+    return cases
+
+
 def gen_expose_cases(seed, tiername, n):
     """single Packet.h widthReduce stages on shapes where its Empty/EmptyBits output was wrong before 32e913f
     (narrow beat not a power of two bits wide, or more than two digits)"""
@@ -771,6 +802,33 @@ def oracle_case(params, evlines):
         last_e = e
         offered_last = ((e["d"], e["e"], e["m"]) + ((e["eb"],) if ebmode else ())) if (e["v"] and not rin) else None
         st["cycles"] += 1
+    # a single strm::fifo stage: the measured write-to-read latency of beats pushed into the EMPTY fifo against the request
+    if len(stages) == 1 and stages[0][0] in ("ff", "fz", "fe", "fl", "fm") and not ebmode:
+        kreq, areq = stages[0]
+        req = ("dontcare", 0) if kreq == "ff" else ("exact", 0) if kreq == "fz" else ({"fe": "exact", "fl": "atleast", "fm": "atmost"}[kreq], areq // 100)
+        nin = nout = 0; pending = None
+        for idx, line in enumerate(evlines):
+            e = parse_ev(line)
+            vo_ = e["vo"] == "1"
+            measured = None
+            if pending is not None and vo_:
+                measured = idx - pending; pending = None
+            elif pending is None and e["v"] and e["rin"] == "1" and nin == nout:
+                if vo_:
+                    measured = 0
+                else:
+                    pending = idx
+            if measured is not None:
+                L = measured
+                st[f"fifo_latency_{req[0]}{req[1]}_measured_{L}"] += 1
+                bad = (req[0] == "exact" and L != req[1]) or (req[0] == "atleast" and L < req[1]) or (req[0] == "atmost" and L > req[1])
+                if bad:
+                    return dict(event=idx, what=f"strm::fifo requested with latency {req[0]}({req[1]}) shows a beat pushed into the empty fifo after {L} cycles", line=line,
+                                context=evlines[max(0, idx - L - 1):idx + 1]), st, obs
+            if e["v"] and e["rin"] == "1":
+                nin += 1
+            if vo_ and e["r"]:
+                nout += 1
     # hold rule verdict
     if hold_break is not None:
         if info["expect_hold"]:
@@ -1030,12 +1088,14 @@ def main():
 
     # ---------------- generated cases (tie + oracle)
     if tiername == "quick":
-        ntie, nfifo, npkt, npkteb, nbe, nsig, ncyc = 1500, 150, 500, 400, 500, 400, 200
+        ntie, nfifo, npkt, npkteb, nbe, nsig, nfl, ncyc = 1500, 150, 500, 400, 500, 400, 400, 200
     else:
-        ntie, nfifo, npkt, npkteb, nbe, nsig, ncyc = 15000, 1500, 5000, 4000, 5000, 4000, 360
+        ntie, nfifo, npkt, npkteb, nbe, nsig, nfl, ncyc = 15000, 1500, 5000, 4000, 5000, 4000, 4000, 360
     run_batch(gen_cases(seed, tiername, "tie", ntie, ncyc), "tie")
     # chains containing strm::fifo: no Coq machine -> independent oracle only
     run_batch(gen_cases(seed, tiername, "fifo", nfifo, ncyc, allow_fifo=True), "fifo")
+    # strm::fifo under every latency request kind x depth 1..16 x light load
+    run_batch(gen_fifolat_cases(seed, tiername, "fifolat", nfl, ncyc), "fifolat")
     # packet family: whole packets with pauses at packet-beat boundaries (Packet.h widthReduce / widthExtend / matchWidth)
     run_batch(gen_pkt_cases(seed, tiername, "pkt", npkt, ncyc, False), "pkt")
     # the same on streams that carry EmptyBits (partial last beats): no Coq machine -> packet oracle only
@@ -1152,6 +1212,7 @@ def main():
         "packet family: the producer sends whole packets (prod=seq) with idle slots directly in front of the last beat of a packet / in front of one-beat packets / everywhere / nowhere while the consumer is always or mostly ready; emptyBits values are digit aligned (multiples of w)",
         "other stream signatures (harness sig=rs|v|s): RsPacketStream (Ready, Sop, Eop, no Valid), VPacketStream (no Ready), SPacketStream (Sop, Eop). For rs / s the observation interface is the library's derived accessor valid(out) (pinned out) plus the raw sop/eop of the output; the oracle decides independently from the framing whether a beat is on offer (from sop until its eop is transferred) and requires the accessor to agree in every cycle, sop to sit on exactly the first beat of each packet, and the usual transfer / hold / drain rules with the derived valid at the input. Model: StreamRs.v (rs_flags = the flag register, inpkt = the specification, rsCycles supplies the derived valid to the unchanged stage machines); output sop of the model run is the framing of its own output transfers",
         "stage kinds per signature are what the library accepts: regReady / regDecouple / strm::fifo / stall assign valid(...) and do not compile without a Valid signal; utils.h extendWidth turns an Rs stream into a different type (adds Valid); Packet.h widthExtend on a stream without Valid offers partial wide beats (sop is high while the group is still incomplete) -- not generated; after Packet.h widthReduce the sop signal has lost its reset value, so later register stages power up with undefined sop and the derived valid is X until the first packet has ended (seen with pr2,rd,dl3) -- pr is only generated as the last stage of an rs chain; Sop as an additional meta signal of Valid-carrying streams is not exercised",
+        "strm::fifo is exercised under every way of requesting a latency: FifoLatency(n) exact n=0..3, DontCare, AtLeast(0..3), AtMost(1..3), minDepth 1..16, light-load schedules, alone and between register stages (also on ByteEnable streams); for single-stage chains the measured write-to-read latency of beats pushed into the empty fifo is checked against the request (exact ==, AtLeast >=, AtMost <=). Not generated: FifoLatency::AtMost(0) -- strm::fifo(in, d, AtMost(0)) does not terminate on the real code (elaboration hangs with growing memory; reported); dual-clock FIFOs are not reachable through the single-clock strm::fifo(stream, depth, latency) overload used here (C15 covers scl::Fifo dual clock)",
         "strm::fifo is a black box for the Coq part (C15 owns its machine); here it is covered by the list oracle and the hold rule only",
         "reference simulator semantics (registers, reset, clock edges) are taken as the meaning of the generated circuit (C01/C04 cover them); values are sampled before each rising edge",
         "liveness is proved for the register stages (regDownstream, regDownstreamBlocking, regReady, regDecouple, delay n) and checked by the drain phase of every generated case for all chains",
